@@ -135,7 +135,7 @@ def sweep(names):
             continue
         sh("git -C /repo apply %s" % patch)
         try:
-            env = dict(os.environ, VERIF_EVIDENCE_DIR=os.path.join(VERIF, ".build", "evidence-seeded"))
+            env = dict(os.environ, VERIF_EVIDENCE_DIR=os.path.join(VERIF, ".build", "evidence-seeded"), VERIF_FAILFAST="1")
             import time
             t0 = time.time()
             p = subprocess.run([os.path.join(VERIF, "check"), prop, "quick"], cwd=VERIF, env=env,
@@ -144,9 +144,12 @@ def sweep(names):
         finally:
             sh("git -C /repo checkout -- . && git -C /repo clean -fdq -- pfcpiface conf cmd pkg internal")
         msg = ""
-        m = re.search(r"\[check\] failure: (.*?)(?:\n\s+To reproduce|\n\[check\]|\nVIOLATION|$)", out, re.S)
-        if m:
-            msg = " ".join(m.group(1).split())[:400]
+        for pat in (r"common_test\.go:\d+: (C\d\d/[^\n]*)", r"\[check\] failure: (process died[^\n]*)", r"(C20 violation:[^\n]*)",
+                    r"\[check\] failure: ([^\n]*)", r"\[check\] (INCONCLUSIVE[^\n]*)", r"\[check\] (BUILD[^\n]*)"):
+            m = re.search(pat, out)
+            if m:
+                msg = " ".join(m.group(1).split())[:400]
+                break
         results[name] = {"property": prop, "repo_head": head.strip(), "exit": p.returncode,
                          "result": {0: "MISSED", 1: "caught"}.get(p.returncode, "inconclusive"),
                          "wall_s": round(time.time() - t0, 1), "first_failure": msg}
